@@ -131,7 +131,7 @@ def run(ctx):
                 'set of all selections the statement allows (computed by TLC), under several NumPy '
                 'seeds; non-trivial = more than one allowed selection or a non-empty one. '
                 'C->S: random large inputs judged by the relational ValidSelOf.')
-    cfgs = [''] if ctx.quick else ['', '_thorough']       # thorough: 3 spikes on times 0..3 AND 4 spikes on times 0..2
+    cfgs = [''] if ctx.quick else ['', '_thorough']       # thorough: 3 spikes on times 0..3 AND 4 spikes on times 0..3
     fallback = []
     for sfx in cfgs:
         ctx.model_check('Selector', 'MC_Selector%s.cfg' % sfx, expect_actions=('Pick', 'Pick2', 'Call'),
